@@ -683,6 +683,16 @@ func (c *Ctx) DerivesFrom(v ssa.Value, pred func(ssa.Value) bool, depth int) boo
 			return false
 		}
 		switch x := v.(type) {
+		case *ssa.Phi:
+			// a boolean phi fed by constants is a short-circuit expression
+			// (a && b, a || !b): the tested operand is in the branch, not in an edge
+			if b, ok := x.Type().Underlying().(*types.Basic); ok && b.Kind() == types.Bool {
+				for _, pr := range x.Block().Preds {
+					if iff, ok := pr.Instrs[len(pr.Instrs)-1].(*ssa.If); ok && rec(iff.Cond, d+1) {
+						return true
+					}
+				}
+			}
 		case *ssa.MakeMap:
 			for _, r := range eng.Referrers(x) {
 				if mu, ok := r.(*ssa.MapUpdate); ok && mu.Map == ssa.Value(x) {
@@ -1115,4 +1125,27 @@ func (c *Ctx) ObNoStaleElementStores(rule string, fn *ssa.Function, floor int, w
 		c.R.OK(rule, c.name(fn)+"/element-stores-fresh", c.P.Pos(fn.Pos()), fmt.Sprintf("%d store(s) into slice elements, each through an address computed after the last re-assignment of the slice", n))
 	}
 	c.R.Floor(rule, "stores into slice elements in "+c.name(fn), n, floor)
+}
+
+// loadedCell: v (looked at through transparent helpers) is a load of one
+// memory cell; its identity, "" otherwise.
+func (c *Ctx) loadedCell(v ssa.Value) string {
+	if k := c.P.LoadedCell(v); k != "" {
+		return k
+	}
+	id := ""
+	for _, r := range eng.ResolveAll(v) {
+		k := c.P.LoadedCell(r)
+		if k == "" {
+			// a field written once where its object is built resolves to the value itself
+			if o := c.P.ObjID(r); o != "" {
+				k = "obj:" + o
+			}
+		}
+		if k == "" || (id != "" && k != id) {
+			return ""
+		}
+		id = k
+	}
+	return id
 }
